@@ -38,6 +38,12 @@ func ruleOpenErrorUsed(c *eng.Ctx) {
 			c.Ok(rule, fname+"→Key.Open:no-success-after-failure", s.Call.Pos(), "error is carried in packBlobValue.Err (rule nil-only-after-hash decides when it can be nil)")
 			continue
 		}
+		if root := c.P.FnName(eng.Root(s.Fn)); root == pkgRepo+".loadBlobs" || root == pkgRepo+".tryRepairWithBitflip" {
+			// frozen exceptions (build tag debug only): `restic debug examine` deliberately goes on
+			// after a failed decryption to dump or bit-flip-repair the damaged blob for inspection
+			c.Ok(rule, fname+"→Key.Open:no-success-after-failure", s.Call.Pos(), "exempt: debug-examine helper %s inspects undecryptable data by design (tag debug)", root)
+			continue
+		}
 		sig := s.Fn.Signature
 		errIdx := -1
 		for i := 0; i < sig.Results().Len(); i++ {
